@@ -23,3 +23,18 @@ Theorem C01_packet_refines : forall d c s path o, descends d c s path o ->
   final_state o = Some sf -> parse_params (List.concat flats) s = Ok sf.
 Proof. exact descends_items. Qed.
 Print Assumptions C01_packet_refines.
+
+(* ---- from the XML document itself ----
+   [load] reads the parsed XML tree (Model/Xml.v), [link] builds the object graph (Model/Loader.v), [compile] turns it into the
+   definition the decoder walks (Model/Compile.v; [lits] are the int()/float() readings of the comparison literals).  For every
+   document that loads, every stream of well-formed packets decodes to the in-order per-packet reference, and the definition is
+   ranked, so no recursion fuel is involved (C05_walk_fuel_irrelevant). *)
+From SPP Require Import Model.Xml Model.Loader Model.Compile Proofs.FuelP Proofs.CompileP.
+Theorem C01_from_document : forall sxc lits st prefix p x g d root o k pps,
+  fst (load st prefix p) = Ok x -> link sxc x = Ok g -> compile lits g = Ok d ->
+  stream_ok k pps -> headers_only o = false ->
+  Forall (no_fatal d root o) (to_parse o (map snd pps)) ->
+  packet_generator d root o k (encode pps)
+  = Some (flat_map (fun r => items_of (parse_one d root o r)) (to_parse o (map snd pps)), None) /\ ranked d.
+Proof. intros sxc lits. exact (from_document lits sxc). Qed.
+Print Assumptions C01_from_document.
